@@ -346,7 +346,9 @@ PROPS["C04"] = {
         {"id": "layout",
          "quick": ["c04::c04_vtbl_counter", "c04::c04_vtbl_reader_consume_gen", "c04::c04_group_words",
                    "c04::c04_object_words_and_sizes", "c04::c04_vtbl_only_in_declaration_order",
-                   "c04::c04_group_alias_name_order", "c04::c04_object_with_context_words", "c04::c04_negative_twin"],
+                   "c04::c04_group_alias_name_order", "c04::c04_object_with_context_words",
+                   "c04::c04_vtbl_provided_methods_have_slots", "c04::c04_noncontiguous_cast_and_ret_tmp_order",
+                   "c04::c04_negative_twin"],
          "timeout": 900},
     ],
     "negative": ["c04::c04_negative_twin"],
@@ -387,7 +389,8 @@ PROPS["C07"] = {
     "groups": [
         {"id": "context",
          "quick": ["c07::c07_owned_tree", "c07::c07_consuming_call_keeps_context", "c07::c07_clone_cast_selfreturn",
-                   "c07::c07_caller_glue_holds_context_across_consuming_call", "c07::c07_consuming_call_returning_wrapped_result", "c07::c07_instance_destroyed_before_context_released",
+                   "c07::c07_caller_glue_holds_context_across_consuming_call", "c07::c07_consuming_call_returning_wrapped_result",
+                   "c07::c07_failed_cast_and_int_result_child", "c07::c07_instance_destroyed_before_context_released",
                    "c07::c07_kf_borrowed_obj_ref", "c07::c07_kf_borrowed_obj_mut", "c07::c07_kf_borrowed_group_ref",
                    "c07::c07_negative_twin"],
          "cbmc_args": LEAK, "timeout": 1800},
